@@ -25,6 +25,8 @@ RULE = (
     'span element-wise, columns = expected names in model order (+ status, iterations when requested; underscore names iff '
     'requested), column values = the series exactly, numeric and boolean dtypes preserved; one table per submodel id plus '
     'the linker name; from_dataframe reproduces list(span) and every value; the symbol round trip returns a list equal to '
+    'Expected column values are read from the object\'s storage; flags at their documented default are also left out; a table '
+    'exported earlier does not change when the model is changed in place afterwards; the empty symbol list round-trips. '
     'the original (tuple equality, None stays None, ints stay int). Non-trivial: the model has a non-float or underscore '
     'variable, or a non-range span; the symbol list contains a None field. Distinct = distinct case JSON.'
 )
